@@ -1191,9 +1191,8 @@ def erasures(repo: Repo, f: FuncInfo) -> list[Erase]:
             loop = _enclosing_for(f, a.node)
             var = loop.target.id if loop is not None and isinstance(loop.target, ast.Name) else None
             guards = _guards_of(f, a.node, loop) if loop is not None else []
-            kind, desc = 'unknown', src(a.node)
-            if var is not None and len(guards) == 1:
-                g = guards[0]
+            def classify(g: ast.AST) -> tuple:
+                kind, desc = 'unknown', src(a.node)
                 if isinstance(g, ast.Call) and dotted(g.func) == 'any' and len(g.args) == 1 and isinstance(g.args[0], ast.GeneratorExp) \
                         and len(g.args[0].generators) == 1 and not g.args[0].generators[0].ifs:
                     gen = g.args[0].generators[0]
@@ -1209,6 +1208,15 @@ def erasures(repo: Repo, f: FuncInfo) -> list[Erase]:
                 elif isinstance(g, ast.Compare) and len(g.ops) == 1 and isinstance(g.ops[0], ast.Eq) and isinstance(g.left, ast.Name) \
                         and g.left.id == var and isinstance(g.comparators[0], ast.Constant):
                     kind, desc = 'ann-const', g.comparators[0].value
+                return kind, desc
+            if var is not None and len(guards) == 1:
+                # `if A or B: del ...` erases what `if A: del ... elif B: del ...` erases: one rule per disjunct
+                disj = guards[0].values if isinstance(guards[0], ast.BoolOp) and isinstance(guards[0].op, ast.Or) else [guards[0]]
+                for g in disj:
+                    kind, desc = classify(g)
+                    out.append(Erase(f, a.node, kind, desc))
+                continue
+            kind, desc = 'unknown', src(a.node)
             out.append(Erase(f, a.node, kind, desc))
         else:
             out.append(Erase(f, a.node, 'unknown', fmt_loc(loc)))
